@@ -441,6 +441,107 @@ example : (∀ a ∈ [[Value.int 1, .str "x"], [.null, .str "y"]], a.length = 2)
     rcases ha with rfl | rfl <;> rcases hb with rfl | rfl | rfl <;> simp [keysComparable, Value.cmp?]
 
 
+/-! ### outer joins -/
+
+section OuterJoins
+open VibeProof.Sql
+
+/-- LEFT JOIN over row lists with a total ON predicate -/
+def leftJoinK (p : Row → Bool) (wr : Nat) (ls rs : List Row) : List Row :=
+  ls.flatMap (fun a =>
+    let ms := (rs.map (fun b => a ++ b)).filter p
+    if ms.isEmpty then [a ++ List.replicate wr Value.null] else ms)
+
+/-- RIGHT JOIN: every right row once per match, or once NULL-extended on the left -/
+def rightJoinK (p : Row → Bool) (wl : Nat) (ls rs : List Row) : List Row :=
+  rs.flatMap (fun b =>
+    let ms := (ls.map (fun a => a ++ b)).filter p
+    if ms.isEmpty then [List.replicate wl Value.null ++ b] else ms)
+
+theorem mapM'_ok {α β : Type} (f : α → Except Err β) (g : α → β) (l : List α)
+    (h : ∀ x ∈ l, f x = .ok (g x)) : mapM' f l = .ok (l.map g) := by
+  induction l with
+  | nil => rfl
+  | cons x xs ih =>
+    simp only [mapM', h x List.mem_cons_self, ih (fun y hy => h y (List.mem_cons_of_mem _ hy)),
+      bind, Except.bind, pure, Except.pure, List.map_cons]
+
+/-- the reference evaluator's RIGHT JOIN is `rightJoinK` whenever the ON condition evaluates
+without error on every pair -/
+theorem C05_sql_right_join (db : Db) (l r : From) (on : Expr) (ls rs : List Row) (p : Row → Bool)
+    (hl : l.eval db = .ok ls) (hr : r.eval db = .ok rs)
+    (hp : ∀ a ∈ ls, ∀ b ∈ rs, (do isTrue (← on.eval (a ++ b))) = Except.ok (p (a ++ b))) :
+    (From.right l r on).eval db = .ok (rightJoinK p (l.width db) ls rs) := by
+  simp only [From.eval, hl, hr, bind, Except.bind, pure, Except.pure]
+  have : mapM' (fun b => do
+        let ms ← filterM' (fun row => do isTrue (← on.eval row)) (ls.map (fun a => a ++ b))
+        pure (if ms.isEmpty then [List.replicate (l.width db) Value.null ++ b] else ms)) rs
+      = .ok (rs.map (fun b =>
+          let ms := (ls.map (fun a => a ++ b)).filter p
+          if ms.isEmpty then [List.replicate (l.width db) Value.null ++ b] else ms)) := by
+    apply mapM'_ok
+    intro b hb
+    have hf : filterM' (fun row => do isTrue (← on.eval row)) (ls.map (fun a => a ++ b))
+        = .ok ((ls.map (fun a => a ++ b)).filter p) := by
+      apply filterM'_ok
+      intro row hrow
+      obtain ⟨a, ha, rfl⟩ := List.mem_map.mp hrow
+      exact hp a ha b hb
+    simp only [bind, Except.bind, pure, Except.pure] at hf ⊢
+    rw [hf]
+  simp only [bind, Except.bind, pure, Except.pure] at this
+  rw [this]
+  simp [rightJoinK, List.flatMap_def]
+
+/-- `l RIGHT JOIN r ON c` has the rows of `r LEFT JOIN l ON c` with the two column blocks
+swapped back, in the same order -/
+theorem C05_right_is_mirrored_left (p p' : Row → Bool) (swap : Row → Row) (wl : Nat) (ls rs : List Row)
+    (h1 : ∀ a ∈ ls, ∀ b ∈ rs, p' (b ++ a) = p (a ++ b))
+    (h2 : ∀ a ∈ ls, ∀ b ∈ rs, swap (b ++ a) = a ++ b)
+    (h3 : ∀ b ∈ rs, swap (b ++ List.replicate wl Value.null) = List.replicate wl Value.null ++ b) :
+    rightJoinK p wl ls rs = (leftJoinK p' wl rs ls).map swap := by
+  unfold rightJoinK leftJoinK
+  rw [List.map_flatMap]
+  apply flatMap_congr'
+  intro b hb
+  have hms : ((ls.map (fun a => b ++ a)).filter p').map swap = (ls.map (fun a => a ++ b)).filter p := by
+    clear h3
+    induction ls with
+    | nil => rfl
+    | cons a ls ih =>
+      have ih' := ih (fun a' ha' => h1 a' (List.mem_cons_of_mem _ ha')) (fun a' ha' => h2 a' (List.mem_cons_of_mem _ ha'))
+      have e1 := h1 a List.mem_cons_self b hb
+      have e2 := h2 a List.mem_cons_self b hb
+      simp only [List.map_cons, List.filter_cons, e1]
+      by_cases hpa : p (a ++ b) <;> simp [hpa, e2, ih']
+  simp only []
+  rw [← hms]
+  by_cases he : ((ls.map (fun a => b ++ a)).filter p').isEmpty
+  · simp [h3 b hb, List.isEmpty_iff.mp he]
+  · have : ¬ (((ls.map (fun a => b ++ a)).filter p').map swap).isEmpty := by
+      simpa [List.isEmpty_iff] using he
+    simp [he, this]
+
+/-- every LEFT JOIN row count: one row per match, one per unmatched left row -/
+theorem C05_left_join_length (p : Row → Bool) (wr : Nat) (ls rs : List Row) :
+    (leftJoinK p wr ls rs).length
+      = ((ls.flatMap (fun a => (rs.map (fun b => a ++ b)).filter p)).length
+         + (ls.filter (fun a => ((rs.map (fun b => a ++ b)).filter p).isEmpty)).length) := by
+  unfold leftJoinK
+  induction ls with
+  | nil => rfl
+  | cons a ls ih =>
+    simp only [List.flatMap_cons, List.length_append, List.filter_cons, ih]
+    by_cases he : ((rs.map (fun b => a ++ b)).filter p).isEmpty
+    · simp [List.isEmpty_iff.mp he]; omega
+    · simp [he]; omega
+
+/-- non-vacuity: a matched row, an unmatched right row, a NULL key -/
+example : rightJoinK (fun r => eqTrue (r.headD .null) ((r[1]?).getD .null)) 1
+      [[.int 1], [.null]] [[.int 1], [.int 7]] = [[.int 1, .int 1], [.null, .int 7]] := by decide
+
+end OuterJoins
+
 /-! ### wrapping a table in a derived table -/
 
 /-- `FROM (SELECT * FROM t) AS d` may be replaced by `FROM t`: any outer query evaluated over
